@@ -65,7 +65,28 @@ def run(ck, prog, ctx):
     w = codec.header_writer(prog, pvn)
     r = codec.header_reader(prog, pvn)
     if ck.anchor("TABLE", "Ontology::metadata_as_bytes (header writer)", w, private=True) and ck.anchor("TABLE", "parser::binary::ontology::version (header reader)", r, private=True):
-        if not w["magic"] or not r["magic"]:
+        if not w["magic"] and r["magic"]:
+            # is the magic written in another spelling (pushed byte by byte, a named constant handed on)?  Every u8 constant of the writer and of
+            # the constants it names is collected; if the reader's magic bytes are not among them, the writer emits no magic at all
+            seen_u8 = set()
+            for fb_ in prog.family(w["body"]):
+                for _, st_ in fb_.stmts():
+                    if st_.k == "assign":
+                        for o_ in (st_.ops or []):
+                            if o_.kind == "const" and o_.int_value() is not None and 0 <= o_.int_value() < 256:
+                                seen_u8.add(o_.int_value())
+                for _, t_ in fb_.calls():
+                    for o_ in t_.args:
+                        if o_.kind == "const" and o_.int_value() is not None and 0 <= o_.int_value() < 256:
+                            seen_u8.add(o_.int_value())
+                        ac_ = codec.array_consts(prog, pvn, fb_, o_) if o_.kind != "const" or o_.int_value() is None else None
+                        if ac_:
+                            seen_u8 |= set(ac_)
+            if not (set(r["magic"]) <= seen_u8):
+                ck.ob("TABLE", "header/magic", False, "the reader expects the magic %s; the header writer emits none of it (bytes it can emit: %s): a file written by this version is read back as a headerless v1 file" % (r["magic"], sorted(seen_u8)[:12]), where=w["body"].where())
+            else:
+                ck.undecided("TABLE", "header/magic", "magic bytes not recognised (writer %s, reader %s)" % (w["magic"], r["magic"]))
+        elif not w["magic"] or not r["magic"]:
             ck.undecided("TABLE", "header/magic", "magic bytes not recognised (writer %s, reader %s)" % (w["magic"], r["magic"]))
         else:
             ck.ob("TABLE", "header/magic", w["magic"] == r["magic"], "writer emits magic %s, reader compares with %s" % (w["magic"], r["magic"]), where=w["body"].where())
@@ -253,6 +274,51 @@ def run(ck, prog, ctx):
     ck.rule("SELFCMP", "every comparison inside the PartialEq / Ord / PartialOrd impls of the annotation record types and their ids takes one operand from `self` and one from `other`")
     from engines import check_comparison_impls
     check_comparison_impls(ck, "SELFCMP", prog, r"^src/annotations/", floor=4)
+    # ---- SECTION protocol of Ontology::as_bytes: every section that is collected in the scratch buffer is written as <u32 length of the buffer>
+    # followed by the buffer itself.  (Where the two appends live in a helper of their own, no section shows them here: undecided.)
+    ab7 = prog.body(codec.ONT + "as_bytes")
+    if ab7 is not None:
+        from engines import for_loops as _fl7, user_root_locals as _url7
+        pv7 = Prov(prog, inline=False)
+        APP = ("append", "extend_from_slice", "extend")
+        secs = []
+        for lp_ in _fl7(ab7):
+            bufs = set()
+            for bi_, t_ in ab7.calls():
+                if bi_ in lp_["blocks"] and t_.callee.method in APP and t_.args and t_.args[0].place is not None:
+                    bufs |= set(_url7(ab7, pv7, t_.args[0]))
+            if len(bufs) == 1:
+                secs.append((lp_, next(iter(bufs))))
+        secs.sort(key=lambda x_: x_[0]["header"])
+        in_loops = set().union(*[lp_["blocks"] for lp_, _ in secs]) if secs else set()
+        rows7 = []
+        for i_, (lp_, buf_) in enumerate(secs):
+            ex_ = lp_["none"]
+            nxt_ = secs[i_ + 1][0]["none"] if i_ + 1 < len(secs) else None
+            pre = pay = False
+            for bi_, t_ in ab7.calls():
+                if bi_ in in_loops or t_.callee.method not in APP or len(t_.args) < 2 or not ab7.dominates(ex_, bi_) or (nxt_ is not None and ab7.dominates(nxt_, bi_)):
+                    continue
+                if buf_ in set(_url7(ab7, pv7, t_.args[0])):
+                    continue  # an append INTO the buffer
+                at_ = pv7.of_operand(ab7, t_.args[1])
+                roots_ = set(_url7(ab7, pv7, t_.args[1]))
+                if buf_ in roots_:
+                    pay = True
+                elif any(a_[0] == "call" and a_[3] == ab7.id and re.search(r"::len$", a_[1]) for a_ in at_) and any(a_[0] == "call" and "to_be_bytes" in a_[1] for a_ in at_):
+                    pre = True
+            rows7.append((lp_, pre, pay))
+        if rows7 and not any(pre or pay for _, pre, pay in rows7):
+            ck.undecided("LAYOUT", "sections/protocol", "Ontology::as_bytes collects %d section(s) in a buffer; the length prefix and the payload are not appended in its own body (a helper?): not decided" % len(rows7), where=ab7.where())
+        else:
+            for n_, (lp_, pre, pay) in enumerate(rows7):
+                ck.ob("LAYOUT", "sections/protocol/%d" % n_, pre and pay, "section %d of Ontology::as_bytes (loop in line %s) is written %s" % (n_, lp_["line"], "as <u32 length><payload>" if pre and pay else
+                      ("WITHOUT its %s: the reader cuts the stream at the wrong places" % ("length prefix" if not pre and pay else "payload" if pre and not pay else "length prefix and payload"))), where=ab7.where(lp_["line"]))
+    # ---- the term decoder loop stores every term it decodes
+    atb = prog.one(r"::add_terms_from_bytes$")
+    if atb is not None:
+        from engines import check_required_steps as _crs7
+        _crs7(ck, "COVER", prog, atb, [("store the decoded term", lambda t_: (t_.callee.res or "").endswith("::add_term") or (t_.callee.res or "").endswith("Arena::insert") or ((t_.callee.res or "").startswith("<ontology::termarena::Arena as") and t_.callee.method == "extend"))])
     # ---- numbers put together byte by byte take consecutive bytes
     from props.layout import check_byte_assembly
     n_asm = 0
